@@ -115,6 +115,31 @@ Theorem C04_pending_not_done : forall fl cfg ops r,
 Proof. exact pending_not_done. Qed.
 Print Assumptions C04_pending_not_done.
 
+(* ---- replies that arrive while the API call is still inside transport.send() ---- *)
+(* (loopback / in-process router links answer from within send().)  Every API path records its request before it
+   hands the message to the transport, so that schedule is the history [a; r] with nothing in between: the record is
+   found, the future the call is about to return completes with the reply's content, the call returns it and does
+   not raise.  [api_request] covers all six request kinds. *)
+Theorem C04_reply_during_send : forall fl cfg s a r v k co t c,
+  transport s = true -> topen s = true -> sid s = Some v -> is_done s (next_fut s) = false ->
+  api_request s a = Some (k, co, t) ->
+  reply_spec r = Some (k, idgen_next (next_id s), c) ->
+  match r with RRegistered _ g => assoc g (regs s) = None | _ => True end ->
+  let f := next_fut s in
+  let rq := mkreq k (idgen_next (next_id s)) f co t in
+  let '(s1, o1) := step fl cfg s a in
+  let '(s2, o2) := step fl cfg s1 r in
+  (exists m, o1 = [Sent m; ApiReturned (Some f)])
+  /\ pend s2 = remove_req k (idgen_next (next_id s)) (put_req rq (pend s))
+  /\ done s2 = done s ++ [(f, c rq)] /\ user_sees fl s1 s2 o2 f (c rq).
+Proof. exact reply_during_send. Qed.
+Print Assumptions C04_reply_during_send.
+
+(* its freshness hypothesis holds in every reachable state *)
+Theorem C04_fresh_future_not_done : forall fl cfg ops, is_done (final fl cfg ops) (next_fut (final fl cfg ops)) = false.
+Proof. exact fresh_future_not_done. Qed.
+Print Assumptions C04_fresh_future_not_done.
+
 (* ---- never a different request ---- *)
 (* table disjointness: (kind, id) keys and futures are unique over the six tables in every reachable state *)
 Theorem C04_tables_disjoint : forall fl cfg ops,
@@ -192,6 +217,17 @@ Qed.
 Print Assumptions C04_reply_completes_refuted_duplicate_registration.
 
 (* ---- non-vacuity ---- *)
+(* UNREGISTERED delivered from inside the send() of UNREGISTER: the hypotheses of C04_reply_during_send are met *)
+Example C04_witness_reply_during_send :
+  let s := final Tx default_cfg [OOpen; RWelcome 9; ARegister 1 None; RRegistered 1 55] in
+  transport s = true /\ topen s = true /\ sid s = Some 9 /\ is_done s (next_fut s) = false
+  /\ api_request s (AUnregister 0) = Some (KUnregister, None, 55)
+  /\ reply_spec (RUnregistered 2 None) = Some (KUnregister, idgen_next (next_id s), fun _ => ROk VNone)
+  /\ trace Tx default_cfg [OOpen; RWelcome 9; ARegister 1 None; RRegistered 1 55; AUnregister 0; RUnregistered 2 None]
+     = [Called CbConnect; Sent MHello; Called CbWelcome; Called (CbJoin 9); Sent (MRegister 1 1 0 0); ApiReturned (Some 0);
+        Completed 0 (ROk (VRegistration 55)); Sent (MUnregister 2 55); ApiReturned (Some 1); Completed 1 (ROk VNone)].
+Proof. vm_compute. repeat split; reflexivity. Qed.
+
 (* the two former counterexamples: progressive RESULTs without kwargs / for a call without options *)
 Example C04_witness_progressive_repaired :
   trace Tx default_cfg
